@@ -113,7 +113,7 @@ struct OnePassIt {
     bool operator==(const OnePassIt& o) const { return src == o.src; }
     bool operator!=(const OnePassIt& o) const { return src != o.src; }
 };
-static uint64_t one_pass_ranges = 0;
+static uint64_t one_pass_ranges = 0, slice_writes = 0;
 
 template <typename T>
 static void run_vec(uint64_t nops, const char* tname) {
@@ -232,6 +232,15 @@ static void run_vec(uint64_t nops, const char* tname) {
                     if (!Elem<T>::eq(*it, sv[i][k])) fail("slice element");
                 for (k = 0; k < s.size(); ++k)
                     if (!Elem<T>::eq(s[k], sv[i][k])) fail("slice index");
+                // write through the mutable slice (what sort_candidates does with the slice it is
+                // given): only this vector may change, copies that shared the storage must not
+                if (!s.empty()) {
+                    size_t w = (size_t)below(s.size());
+                    uint32_t y = (uint32_t)below(1000);
+                    s[w] = Elem<T>::make(y);
+                    sv[i][w] = Elem<T>::shadow(y);
+                    slice_writes++;
+                }
                 break;
             }
             case 15: {
@@ -395,6 +404,6 @@ int main(int argc, char** argv) {
         run_string(nops);
     }
     std::cout << "OK sequences=" << nseq * 4 << " ops=" << ops_done << " checks=" << checks_done << " growths=" << growths
-              << " mutations_through_index=" << shared_mutations << " moved_from_own_element=" << moved_aliases << " single_pass_ranges=" << one_pass_ranges << std::endl;
+              << " mutations_through_index=" << shared_mutations << " moved_from_own_element=" << moved_aliases << " single_pass_ranges=" << one_pass_ranges << " writes_through_slices=" << slice_writes << std::endl;
     return 0;
 }
